@@ -193,7 +193,10 @@ func main() {
 			g.Type = lib.Pick(r, mapTypes)
 			g.Op = lib.Pick(r, []string{"map", "mapptr"})
 			if g.NoRet {
-				g.Op = lib.Pick(r, []string{"map", "mapptr", "maps", "mapsptr"})
+				g.Op = lib.Pick(r, []string{"map", "mapptr", "maps", "maps", "mapsptr", "mapsptr"})
+				if g.Op == "maps" || g.Op == "mapsptr" {
+					g.N = r.Range(2, 4) // every ragged pattern over 2-4 rows gets its chance
+				}
 			}
 		} else if r.Chance(2, 5) {
 			g.Type, g.Spec = genSpec(r, i)
